@@ -401,10 +401,10 @@ fn check(id: &str, tier: Tier) -> i32 {
                     break;
                 }
                 Ok(None) => {
-                    if t0.elapsed().as_secs() > 30 {
+                    if t0.elapsed().as_secs() > 90 {
                         let _ = child.kill();
                         let _ = child.wait();
-                        bad = Some("no return within 30 s".to_string());
+                        bad = Some("no return within 90 s".to_string());
                         break;
                     }
                     std::thread::sleep(std::time::Duration::from_millis(20));
